@@ -46,7 +46,7 @@ struct Registry
 inline void sleep_ms(int ms) { ::usleep(ms * 1000); }
 
 // ---- forced schedules (scenarios f_*).  The TSan build calls __tsan_read8/__tsan_write4/... before every instrumented
-// access; the driver is linked with -Wl,--wrap=__tsan_read8,--wrap=__tsan_write4 (definitions in C08_tsan_loop.cc), so a
+// access; the driver is linked with -Wl,--wrap=__tsan_read8,--wrap=__tsan_write4,--wrap=__tsan_read4 (definitions in C08_tsan_loop.cc), so a
 // scenario can park the calling thread exactly between two adjacent statements of an operation under test - e.g. between
 // `if (state_ == kConnected)` and `setState(kDisconnecting)` - let the loop thread make its move, and release it.
 // Everything here uses relaxed atomics only (no synchronisation ThreadSanitizer would count as a happens-before edge),
@@ -59,16 +59,19 @@ struct Stall
   std::atomic<int> armed, stalled, release;
 };
 extern Stall g_stall;
-// the calling thread will stall at its next instrumented 8-byte read (write=false) / 4-byte write (write=true) of addr
-inline void arm_stall(void* addr, bool write)
+enum StallKind { kRead8 = 0, kWrite4 = 1, kRead4 = 2 };
+// thread `who` will stall at its next instrumented access of that kind to addr
+inline void arm_stall_thread(pthread_t who, void* addr, int kind)
 {
   g_stall.addr.store(addr, std::memory_order_relaxed);
-  g_stall.write.store(write ? 1 : 0, std::memory_order_relaxed);
-  g_stall.thread.store(static_cast<unsigned long>(pthread_self()), std::memory_order_relaxed);
+  g_stall.write.store(kind, std::memory_order_relaxed);
+  g_stall.thread.store(static_cast<unsigned long>(who), std::memory_order_relaxed);
   g_stall.stalled.store(0, std::memory_order_relaxed);
   g_stall.release.store(0, std::memory_order_relaxed);
   g_stall.armed.store(1, std::memory_order_relaxed);
 }
+// the calling thread will stall at its next instrumented 8-byte read (write=false) / 4-byte write (write=true) of addr
+inline void arm_stall(void* addr, bool write) { arm_stall_thread(pthread_self(), addr, write ? kWrite4 : kRead8); }
 // a plain thread that waits for the stall, runs `during(arg)` (the other side's move) and releases the stalled thread
 struct StallHelper
 {
